@@ -1,7 +1,7 @@
 /-
   Proofs.Sim — whole histories: the concrete model (`Core`, either flavour) driven by any history of calls
   simulates the abstract history step by step: it never traps or diverges, returns the same handles, and
-  keeps the concrete invariant. (statement file: every `sorry` below is a proof obligation)
+  keeps the concrete invariant. (all statements proved; `Rel` carries one extra field, see the CHANGED note)
 -/
 import RarenaVerif.Proofs.RefineAlloc
 import RarenaVerif.Proofs.RefineMisc
@@ -67,6 +67,11 @@ def COp.ok : COp → Prop
   | .op (.incDiscarded n) => n < TWO32
   | _ => True
 
+-- CHANGED: added the field `nonnull` (every held handle has `memSize ≠ 0`). Without it `sim_step`/`sim_run` are
+-- false: `HInv.held_null` allows a held handle `⟨2^32, 0, 0, 0⟩` (memSize = 0, ptrSize = 0, arbitrary memOff), and
+-- `release` of it makes `dealloc` trap in its unchecked `offset + size`. Sessions only ever hold handles pushed by
+-- successful allocations, which have `memSize ≠ 0` (`AllocPost.nonempty`); `sim_init` establishes the field and
+-- `sim_step` preserves it, so the statements of the four theorems below are textually unchanged.
 /-- simulation relation between a concrete session and an abstract history state -/
 structure Rel (c : Cfg) (x : CSess) (h : HState) (free : List Seg) : Prop where
   held : x.held = h.held
@@ -138,6 +143,162 @@ def HState.stepOpt (c : Cfg) (h : HState) : Option HOp → HState
   | none => h
   | some o => h.step c o
 
+/-! ### helpers for `sim_step` -/
+
+theorem sim_fuel {c : Cfg} {x : CSess} {h : HState} {free : List Seg} {fuel : Nat} (hr : Rel c x h free)
+    (hfuel : x.st.cap + 2 ≤ fuel) : free.length + 2 ≤ fuel := by
+  have h1 := wf_free_length c _ _ hr.cinv.wf
+  have h2 := hr.cinv.wf.hi
+  simp only [St.abs] at h1 h2
+  omega
+
+/-- a held handle is live and its accessible range lies inside its owned extent, above the prefix -/
+theorem sim_held {c : Cfg} {x : CSess} {h : HState} {free : List Seg} (hr : Rel c x h free) {m : Meta}
+    (hm : m ∈ x.held) :
+    m.memSize ≠ 0 ∧ m.owned ∈ h.lives ∧ m.owned.1 ≤ m.ptrOff ∧ m.ptrOff + m.ptrSize ≤ m.owned.2 ∧
+      c.dataOffset ≤ m.ptrOff := by
+  have hne := hr.nonnull m hm
+  have hm' : m ∈ h.held := hr.held ▸ hm
+  have hok := hr.hinv.held_ok m hm' hne
+  refine ⟨hne, lives_mem hm' hne, ?_, ?_, hok.2.1⟩
+  · simp only [Meta.owned]; omega
+  · simp only [Meta.owned]; omega
+
+/-- bytes of the accessible range of a held handle survive a step that keeps the live extents intact -/
+theorem sim_held_intact {c : Cfg} {x : CSess} {h : HState} {free : List Seg} (hr : Rel c x h free) {s' : St}
+    {lives : List Ext} (hl : LiveIntact x.st s' lives) {m : Meta} (hm : m ∈ x.held) (hml : m.owned ∈ lives) :
+    ∀ j, m.ptrOff ≤ j → j < m.ptrOff + m.ptrSize → s'.mem.rd j = x.st.mem.rd j := by
+  intro j h1 h2
+  obtain ⟨_, _, h3, h4, _⟩ := sim_held hr hm
+  exact hl _ hml j (by omega) (by omega)
+
+theorem Rel.build {c : Cfg} {x' : CSess} {h' : HState} {free' : List Seg} {L : List Ext}
+    (hheld : x'.held = h'.held) (hdet : x'.detached = h'.detached) (habs : x'.st.abs free' = h'.a)
+    (hc : CInv c x'.st free' L) (hi : HInv c h') (hnn : ∀ m ∈ x'.held, m.memSize ≠ 0) : Rel c x' h' free' :=
+  ⟨hheld, hdet, habs,
+    ⟨by rw [habs]; exact hi.wf, hc.chain, hc.sent, hc.capGuard, hc.minSegLt, hc.retriesOK⟩, hi, hnn⟩
+
+/-- the three allocation entry points, uniformly -/
+theorem sim_alloc (c : Cfg) (x : CSess) (h : HState) (free : List Seg) (r : AOut × A) (res : M (AllocOut × St))
+    (zero : Bool) (h' : HState)
+    (hh : h' = match r with
+      | (.ok (some m), a') => { h with a := a', held := h.held ++ [m] }
+      | (_, a') => { h with a := a' })
+    (hi : HInv c h') (hr : Rel c x h free) (href : AllocRefines c x.st free h.lives r res zero)
+    (herr : ∀ e a', r = (.error e, a') → a' = h.a)
+    (hnone : ∀ a', r = (.ok none, a') → a' = h.a)
+    (hok : ∀ m a', r = (.ok (some m), a') → m.memSize ≠ 0) :
+    ∃ x' free', (do let r ← res; pure (pushAlloc x r) : M CSess) = .ok x' ∧ Rel c x' h' free' ∧
+      x'.st.mem.size = x.st.mem.size ∧ PrefixIntact c x.st x'.st ∧
+      (∀ m ∈ x.held, ∀ j, m.ptrOff ≤ j → j < m.ptrOff + m.ptrSize → x'.st.mem.rd j = x.st.mem.rd j) := by
+  obtain ⟨s', e1, st, hm⟩ := href
+  rcases r with ⟨(e | (_ | m)), a'⟩
+  · simp only at hm e1 st hh ⊢
+    subst hm hh
+    have ha := herr e a' rfl
+    subst ha
+    exact ⟨x, free, by rw [e1]; rfl, hr, rfl, fun _ _ => rfl, fun _ _ _ _ _ => rfl⟩
+  · simp only at hm e1 st hh ⊢
+    subst hm hh
+    have ha := hnone a' rfl
+    subst ha
+    exact ⟨x, free, by rw [e1]; rfl, hr, rfl, fun _ _ => rfl, fun _ _ _ _ _ => rfl⟩
+  · simp only at hm e1 st hh ⊢
+    subst hh
+    have hne := hok m a' rfl
+    refine ⟨{ x with st := s', held := x.held ++ [m] }, a'.free, by rw [e1]; rfl, ?_, st.size, st.pre, ?_⟩
+    · refine Rel.build (by simp only [hr.held]) hr.detached st.abs hm.1 hi ?_
+      intro m' hm'
+      rcases List.mem_append.1 hm' with hm' | hm'
+      · exact hr.nonnull m' hm'
+      · simp only [List.mem_singleton] at hm'; subst hm'; exact hne
+    · intro m' hm'
+      exact sim_held_intact hr st.live hm' (sim_held hr hm').2.1
+
+theorem sim_pairwise_ne {α : Type} {R : α → α → Prop} (hs : ∀ a b, R a b → R b a) {l : List α}
+    (hp : l.Pairwise R) {a b : α} (ha : a ∈ l) (hb : b ∈ l) (hne : a ≠ b) : R a b := by
+  induction l with
+  | nil => simp at ha
+  | cons y ys ih =>
+    rw [List.pairwise_cons] at hp
+    rcases List.mem_cons.1 ha with h1 | h1 <;> rcases List.mem_cons.1 hb with h2 | h2
+    · exact absurd (h1.trans h2.symm) hne
+    · rw [h1]; exact hp.1 _ h2
+    · rw [h2]; exact hs _ _ (hp.1 _ h1)
+    · exact ih hp.2 h1 h2
+
+/-- the live extents after releasing the `i`-th handle -/
+theorem sim_lives_erase (h : HState) (i : Nat) (m : Meta) (hm : h.held[i]? = some m) (hz : m.memSize ≠ 0) :
+    (h.lives.erase m.owned).Perm
+      (((h.held.eraseIdx i).filter (fun m => m.memSize != 0)).map Meta.owned ++ h.detached) := by
+  obtain ⟨pre, post, hsplit, herase⟩ := getElem?_split _ _ _ hm
+  have hperm : h.lives.Perm (m.owned ::
+      (((h.held.eraseIdx i).filter (fun m => m.memSize != 0)).map Meta.owned ++ h.detached)) := by
+    unfold HState.lives
+    rw [herase, hsplit]
+    have : (m.memSize != 0) = true := by simpa using hz
+    simp only [List.filter_append, List.map_append, List.filter_cons, this, if_true, List.map_cons,
+      List.append_assoc, List.cons_append]
+    exact List.perm_middle
+  have := hperm.erase m.owned
+  rwa [List.erase_cons_head] at this
+
+theorem sim_release (c : Cfg) (x : CSess) (h : HState) (free : List Seg) (i : Nat) (m : Meta) (fuel : Nat)
+    (hr : Rel c x h free) (hro : c.ro = false) (hfuel : free.length + 2 ≤ fuel) (hm : x.held[i]? = some m) :
+    ∃ x' free', (do let (_, st) ← dealloc c x.st m.memOff m.memSize fuel
+                    pure { x with st := st, held := x.held.eraseIdx i } : M CSess) = .ok x' ∧
+      Rel c x' { h with a := (h.a.dealloc c m.memOff m.memSize).2, held := h.held.eraseIdx i } free' ∧
+      x'.st.mem.size = x.st.mem.size ∧ PrefixIntact c x.st x'.st ∧
+      (∀ m' ∈ x.held, m' ∈ x'.held →
+        ∀ j, m'.ptrOff ≤ j → j < m'.ptrOff + m'.ptrSize → x'.st.mem.rd j = x.st.mem.rd j) := by
+  have hmem : m ∈ x.held := List.mem_of_getElem? hm
+  obtain ⟨hne, hml, _⟩ := sim_held hr hmem
+  have hm' : h.held[i]? = some m := hr.held ▸ hm
+  have hi : HInv c (h.step c (.release i)) := HInv.step c h (.release i) hr.hinv trivial
+  simp only [HState.step, hm'] at hi
+  obtain ⟨s', e1, st, hc⟩ := dealloc_refines c x.st free h.lives m fuel hr.cinv hro hml hne hfuel
+  rw [hr.abs] at e1 st hc
+  refine ⟨{ x with st := s', held := x.held.eraseIdx i }, (h.a.dealloc c m.memOff m.memSize).2.free,
+    by rw [e1]; rfl, ?_, st.size, st.pre, ?_⟩
+  · refine Rel.build (by simp only [hr.held]) hr.detached st.abs hc hi ?_
+    intro m' hm''
+    exact hr.nonnull m' (List.mem_of_mem_eraseIdx hm'')
+  · intro m' hm1 hm2
+    have hm2' : m' ∈ h.held.eraseIdx i := hr.held ▸ hm2
+    have h1 : m'.owned ∈ (({ h with a := (h.a.dealloc c m.memOff m.memSize).2, held := h.held.eraseIdx i } :
+        HState)).lives := lives_mem hm2' (hr.nonnull m' hm1)
+    have h2 : m'.owned ∈ h.lives.erase m.owned := (sim_lives_erase h i m hm' hne).mem_iff.2 h1
+    exact sim_held_intact hr st.live hm1 h2
+
+theorem sim_fill (c : Cfg) (x : CSess) (h : HState) (free : List Seg) (i : Nat) (m : Meta) (b : UInt8)
+    (hr : Rel c x h free) (hm : x.held[i]? = some m) :
+    Rel c { x with st := { x.st with mem := x.st.mem.fill m.ptrOff m.ptrSize b } } h free ∧
+      PrefixIntact c x.st { x.st with mem := x.st.mem.fill m.ptrOff m.ptrSize b } ∧
+      (∀ m' ∈ x.held, x.held[i]? ≠ some m' → ∀ j, m'.ptrOff ≤ j → j < m'.ptrOff + m'.ptrSize →
+        (x.st.mem.fill m.ptrOff m.ptrSize b).rd j = x.st.mem.rd j) := by
+  have hmem : m ∈ x.held := List.mem_of_getElem? hm
+  obtain ⟨hne, hml, h1, h2, h3⟩ := sim_held hr hmem
+  refine ⟨?_, ?_, ?_⟩
+  · have hc := fill_cinv c x.st free h.lives m.owned m.ptrOff m.ptrSize b hr.cinv hml h1 h2
+    exact Rel.build hr.held hr.detached (by rw [← hr.abs]; simp [St.abs, St.cap]) hc hr.hinv hr.nonnull
+  · intro j hj
+    show (x.st.mem.fill m.ptrOff m.ptrSize b).rd j = x.st.mem.rd j
+    rw [Mem.rd_fill]; split <;> first | rfl | omega
+  · intro m' hm' hne' j hj1 hj2
+    have hmm : m ≠ m' := fun e => hne' (e ▸ hm)
+    have hex := (held_exclusive c h hr.hinv).1
+    rw [List.pairwise_map] at hex
+    have hin : ∀ y ∈ x.held, y ∈ h.held.filter (fun m => m.memSize != 0) := by
+      intro y hy
+      simp only [List.mem_filter, bne_iff_ne, ne_eq]
+      exact ⟨hr.held ▸ hy, hr.nonnull y hy⟩
+    have hd : disj m.access m'.access :=
+      sim_pairwise_ne (R := fun a b : Meta => disj a.access b.access) (fun _ _ hab => disj_symm hab) hex
+        (hin m hmem) (hin m' hm') hmm
+    unfold disj at hd
+    simp only [Meta.access] at hd
+    rw [Mem.rd_fill]; split <;> first | rfl | omega
+
 /-- one step: no trap, no divergence, same handles, invariant kept; bytes of every live extent other than the
     one the operation releases or writes through are unchanged -/
 theorem sim_step (c : Cfg) (x : CSess) (h : HState) (free : List Seg) (op : COp) (fuel : Nat)
@@ -146,19 +307,129 @@ theorem sim_step (c : Cfg) (x : CSess) (h : HState) (free : List Seg) (op : COp)
       x'.st.mem.size = x.st.mem.size ∧ PrefixIntact c x.st x'.st ∧
       (∀ m ∈ x.held, m ∈ x'.held → (match op with | .fill i _ => x.held[i]? ≠ some m | _ => True) →
         ∀ j, m.ptrOff ≤ j → j < m.ptrOff + m.ptrSize → x'.st.mem.rd j = x.st.mem.rd j) := by
-  sorry
+  have hf := sim_fuel hr hfuel
+  cases op with
+  | fill i b =>
+    simp only [cstep, COp.abs, HState.stepOpt]
+    rcases hm : x.held[i]? with _ | m
+    · exact ⟨x, free, rfl, hr, rfl, fun _ _ => rfl, fun _ _ _ _ _ _ _ => rfl⟩
+    · obtain ⟨h1, h2, h3⟩ := sim_fill c x h free i m b hr hm
+      refine ⟨_, free, rfl, h1, Mem.size_fill _ _ _ _, h2, ?_⟩
+      intro m' hm1 _ hne
+      exact h3 m' hm1 (hm ▸ hne)
+  | op o =>
+    cases o with
+    | allocBytes n =>
+      have href := allocBytes_refines c x.st free h.lives n fuel hr.cinv hop hf
+      rw [hr.abs] at href
+      have hi := HInv.step c h (.allocBytes n) hr.hinv trivial
+      obtain ⟨x', free', e, hrel, hsz, hpre, hby⟩ := sim_alloc c x h free _ _ _ _ rfl hi hr href
+        (fun e a' hh => allocBytes_err _ _ _ _ _ hh) (fun a' hh => (allocBytes_none _ _ _ _ hh).1)
+        (fun m a' hh => (allocBytes_ok _ _ _ _ _ _ hr.hinv.wf hh).1.nonempty)
+      exact ⟨x', free', e, hrel, hsz, hpre, fun m hm _ _ => hby m hm⟩
+    | allocAligned ts ta ex =>
+      have hop' : HOp.ok (.allocAligned ts ta ex) := ⟨hop.1.1, hop.1.2.1⟩
+      have href := allocAligned_refines c x.st free h.lives ts ta ex fuel hr.cinv hop.1 hop.2 hf
+      rw [hr.abs] at href
+      have hi := HInv.step c h (.allocAligned ts ta ex) hr.hinv hop'
+      obtain ⟨x', free', e, hrel, hsz, hpre, hby⟩ := sim_alloc c x h free _ _ _ _ rfl hi hr href
+        (fun e a' hh => allocAligned_err _ _ _ _ _ _ _ hh) (fun a' hh => (allocAligned_none _ _ _ _ _ _ hh).1)
+        (fun m a' hh => (allocAligned_ok _ _ _ _ _ _ _ _ hr.hinv.wf hop' hh).1.nonempty)
+      exact ⟨x', free', e, hrel, hsz, hpre, fun m hm _ _ => hby m hm⟩
+    | allocT ts ta =>
+      have hop' : HOp.ok (.allocT ts ta) := ⟨hop.1, hop.2.1⟩
+      have href := allocT_refines c x.st free h.lives ts ta fuel hr.cinv hop hf
+      rw [hr.abs] at href
+      have hi := HInv.step c h (.allocT ts ta) hr.hinv hop'
+      obtain ⟨x', free', e, hrel, hsz, hpre, hby⟩ := sim_alloc c x h free _ _ _ _ rfl hi hr href
+        (fun e a' hh => allocT_err _ _ _ _ _ _ hh) (fun a' hh => (allocT_none _ _ _ _ _ hh).1)
+        (fun m a' hh => (allocT_ok _ _ _ _ _ _ _ hr.hinv.wf hop' hh).1.nonempty)
+      exact ⟨x', free', e, hrel, hsz, hpre, fun m hm _ _ => hby m hm⟩
+    | release i =>
+      simp only [cstep, COp.abs, HState.stepOpt, HState.step]
+      rcases hm : x.held[i]? with _ | m
+      · have hm' : h.held[i]? = none := hr.held ▸ hm
+        simp only [hm']
+        exact ⟨x, free, rfl, hr, rfl, fun _ _ => rfl, fun _ _ _ _ _ _ _ => rfl⟩
+      · have hm' : h.held[i]? = some m := hr.held ▸ hm
+        simp only [hm']
+        obtain ⟨x', free', e, hrel, hsz, hpre, hby⟩ := sim_release c x h free i m fuel hr hro hf hm
+        exact ⟨x', free', e, hrel, hsz, hpre, fun m' h1 h2 _ => hby m' h1 h2⟩
+    | detach i =>
+      have hi := HInv.step c h (.detach i) hr.hinv trivial
+      simp only [cstep, COp.abs, HState.stepOpt, HState.step] at hi ⊢
+      rcases hm : x.held[i]? with _ | m
+      · have hm' : h.held[i]? = none := hr.held ▸ hm
+        simp only [hm']
+        exact ⟨x, free, rfl, hr, rfl, fun _ _ => rfl, fun _ _ _ _ _ _ _ => rfl⟩
+      · have hm' : h.held[i]? = some m := hr.held ▸ hm
+        simp only [hm'] at hi ⊢
+        refine ⟨_, free, rfl, ?_, rfl, fun _ _ => rfl, fun _ _ _ _ _ _ _ => rfl⟩
+        refine Rel.build (by simp only [hr.held]) (by simp only [hr.detached]) hr.abs hr.cinv hi ?_
+        intro m' hm''
+        exact hr.nonnull m' (List.mem_of_mem_eraseIdx hm'')
+    | setMinSeg n =>
+      have hi := HInv.step c h (.setMinSeg n) hr.hinv trivial
+      simp only [cstep, COp.abs, HState.stepOpt, HState.step, hro, Bool.false_eq_true, if_false] at hi ⊢
+      have hc := setMinSeg_cinv c x.st free h.lives n hr.cinv hop
+      have hs : setMinSeg c x.st n = { x.st with minSeg := n } := by simp [setMinSeg, hro]
+      rw [hs] at hc
+      refine ⟨_, free, rfl, ?_, by rw [hs], fun _ _ => by rw [hs], fun _ _ _ _ _ _ _ => by rw [hs]⟩
+      rw [hs]
+      exact Rel.build hr.held hr.detached (by rw [← hr.abs]; rfl) hc hi hr.nonnull
+    | incDiscarded n =>
+      have hi := HInv.step c h (.incDiscarded n) hr.hinv trivial
+      simp only [cstep, COp.abs, HState.stepOpt, HState.step] at hi ⊢
+      obtain ⟨hc, ha⟩ := incDiscarded_cinv c x.st free h.lives n hr.cinv
+      have hmem : (x.st.incDiscarded c n).mem = x.st.mem := dl_incDiscarded_mem c x.st n
+      refine ⟨_, free, rfl, ?_, by show (x.st.incDiscarded c n).mem.size = _; rw [hmem],
+        fun _ _ => by show (x.st.incDiscarded c n).mem.rd _ = _; rw [hmem],
+        fun _ _ _ _ _ _ _ => by show (x.st.incDiscarded c n).mem.rd _ = _; rw [hmem]⟩
+      exact Rel.build hr.held hr.detached (by rw [← hr.abs]; exact ha) hc hi hr.nonnull
+    | discardFreelist =>
+      have hi := HInv.step c h .discardFreelist hr.hinv trivial
+      simp only [cstep, COp.abs, HState.stepOpt, HState.step] at hi ⊢
+      obtain ⟨s', e1, st, hc⟩ := discardFreelist_refines c x.st free h.lives fuel hr.cinv hf
+      rw [hr.abs] at e1 st hc
+      refine ⟨{ x with st := s' }, (h.a.discardFreelist c).2.free, by rw [e1]; rfl, ?_, st.size, st.pre, ?_⟩
+      · exact Rel.build hr.held hr.detached st.abs hc hi hr.nonnull
+      · intro m hm _ _
+        exact sim_held_intact hr st.live hm (sim_held hr hm).2.1
+
+theorem sim_run_cons (c : Cfg) (h : HState) (op : COp) (ops : List COp) :
+    h.run c ((op :: ops).filterMap COp.abs) = (h.stepOpt c op.abs).run c (ops.filterMap COp.abs) := by
+  cases op <;> simp [List.filterMap_cons, COp.abs, HState.stepOpt, HState.run]
 
 /-- every history: the concrete run succeeds and is related to the abstract run -/
 theorem sim_run (c : Cfg) (x : CSess) (h : HState) (free : List Seg) (ops : List COp) (fuel : Nat)
     (hr : Rel c x h free) (hro : c.ro = false) (hops : ∀ op ∈ ops, op.ok) (hfuel : x.st.cap + 2 ≤ fuel) :
     ∃ x' free', crun c fuel x ops = .ok x' ∧ Rel c x' (h.run c (ops.filterMap COp.abs)) free' ∧
       x'.st.mem.size = x.st.mem.size ∧ PrefixIntact c x.st x'.st := by
-  sorry
+  induction ops generalizing x h free with
+  | nil => exact ⟨x, free, rfl, hr, rfl, fun _ _ => rfl⟩
+  | cons op ops ih =>
+    obtain ⟨x1, free1, e1, hr1, hsz1, hpre1, _⟩ :=
+      sim_step c x h free op fuel hr hro (hops op (List.mem_cons_self ..)) hfuel
+    obtain ⟨x2, free2, e2, hr2, hsz2, hpre2⟩ := ih x1 (h.stepOpt c op.abs) free1 hr1
+      (fun o ho => hops o (List.mem_cons_of_mem _ ho)) (by unfold St.cap at *; omega)
+    refine ⟨x2, free2, ?_, ?_, hsz2.trans hsz1, fun i hi => (hpre2 i hi).trans (hpre1 i hi)⟩
+    · simp only [crun, e1, bind, Except.bind]
+      exact e2
+    · rw [sim_run_cons]; exact hr2
 
 /-- a freshly constructed arena is related to the initial abstract history state -/
 theorem sim_init (o : Opts) (s : St) (h : o.init = some s) (hcap : o.cap + 8192 ≤ TWO32)
     (hms : o.minSeg < TWO32) (hr : 1 ≤ o.retries ∧ o.retries ≤ 255) :
     Rel o.cfg { st := s, held := [], detached := [] } (HState.init o.cap o.dataOffset o.minSeg) [] := by
-  sorry
+  obtain ⟨hc, habs, _, _⟩ := init_cinv o s h hcap hms hr
+  have h1 : 1 ≤ o.cfg.dataOffset := hc.wf.lo
+  have h2 : o.cfg.dataOffset ≤ o.cap := by
+    have a := hc.wf.mid
+    have b := hc.wf.hi
+    rw [habs] at a b
+    simp only [A.fresh] at a b
+    omega
+  have hi : HInv o.cfg (HState.init o.cap o.dataOffset o.minSeg) := HInv.init o.cfg o.cap o.minSeg h1 h2
+  exact Rel.build rfl rfl habs hc hi (fun m hm => by simp at hm)
 
 end Rarena
